@@ -24,14 +24,18 @@ package dns
 //@ iface EDNS0.String [C05]
 //@ iface SVCBKeyValue.String [C05]
 
-// fmt's zero-padded fixed-width hexadecimal verbs yield at least the requested number of digits (trusted)
+// fmt's zero-padded fixed-width hexadecimal verbs yield at least the requested number of digits (trusted);
+// the verbs themselves are pinned, since the assumption is about exactly these
 //@ func euiToString [C05]
 //@   assume at "hex = hex[0:2] + @1" w16: len(hex) >= 16
 //@   assume at "hex = hex[0:2] + @2" w12: len(hex) >= 12
+//@   callsite "Sprintf" fmtw: arg0 == "%16.16x" || arg0 == "%12.12x"
 //@ func (*NID).String [C05]
 //@   assume at "node[0:4] + " w16: len(node) >= 16
+//@   callsite "Sprintf" fmt16: arg0 == "%0.16x"
 //@ func (*L64).String [C05]
 //@   assume at "node[0:4] + " w16: len(node) >= 16
+//@   callsite "Sprintf" fmt16: arg0 == "%0.16X"
 
 // an SVCB/HTTPS record holds no nil parameter (unpacking and parsing never produce one)
 //@ func (*SVCB).String [C05]
